@@ -137,7 +137,7 @@ def mode_pattern(modes):
     return ("asc" if asc else ("desc" if list(modes) == sorted(modes, reverse=True) else "mixed")) + ("-adj" if adj else "-gap")
 
 
-def gate(rng, name, d, active_scale=0.35, disp_scale=0.5, modes=None):
+def gate(rng, name, d, active_scale=0.35, disp_scale=0.5, modes=None, cutoff=None):
     """Instruction document of gate `name` on a random ordered mode subset."""
     p = {}
     k = ARITY.get(name)
@@ -172,7 +172,8 @@ def gate(rng, name, d, active_scale=0.35, disp_scale=0.5, modes=None):
     elif name == "CubicPhase":
         p = {"gamma": small(rng, 0.1)}
     elif name == "SNAP":
-        p = {"theta": M.enc(rng.uniform(-np.pi, np.pi, size=int(rng.integers(1, 5))))}
+        # the SNAP phase vector must have one entry per photon number below the cutoff
+        p = {"theta": M.enc(rng.uniform(-np.pi, np.pi, size=int(cutoff) if cutoff else int(rng.integers(1, 5))))}
     elif name == "Attenuator":
         k = 1
         p = {"theta": angle(rng, 0.15), "mean_thermal_excitation": 0}
@@ -226,3 +227,189 @@ def class_key(doc, extra=""):
     return "%s|d%d|c%s|h%s|%s|%s|%s%s" % (
         doc["sim"], doc["d"], cfg.get("cutoff"), cfg.get("hbar"), cfg.get("dtype", "f64"),
         ",".join(types), "/".join(pats), extra)
+
+
+# ------------------------------------------------------------------ adaptive programs
+CALLABLES = {
+    "last_pos": lambda x: x[-1] > 0,
+    "first_zero": lambda x: x[0] == 0,
+    "sum_even": lambda x: sum(x) % 2 == 0,
+    "always": lambda x: True,
+    "never": lambda x: False,
+    "half_first": lambda x: 0.5 * x[0],
+    "neg_last": lambda x: -0.25 * x[-1],
+}
+
+
+def _apply_callables(pq, ins, idoc):
+    """Callable conditions / parameters are referenced by name so that documents stay JSON."""
+    return ins
+
+
+def build_instruction_adaptive(pq, idoc):
+    """Like build_instruction, plus {'__call__': name} parameters and 'when_call': name."""
+    cls = getattr(pq, idoc["t"])
+    params = {}
+    for k, v in idoc.get("p", {}).items():
+        if isinstance(v, dict) and "__call__" in v:
+            params[k] = CALLABLES[v["__call__"]]
+        else:
+            params[k] = _dec_param(k, v)
+    ins = cls(**params)
+    if idoc.get("mul") is not None:
+        ins = ins * _dec_param(None, idoc["mul"])
+    if idoc.get("when") is not None:
+        ins = ins.when(idoc["when"])
+    elif idoc.get("when_call") is not None:
+        ins = ins.when(CALLABLES[idoc["when_call"]])
+    return ins
+
+
+def build_program_adaptive(pq, ins_docs):
+    instructions = []
+    for idoc in ins_docs:
+        ins = build_instruction_adaptive(pq, idoc)
+        m = idoc.get("m")
+        if m is not None:
+            ins = ins.on_modes(*m)
+        instructions.append(ins)
+    return pq.Program(instructions=instructions)
+
+
+def build_adaptive(pq, doc):
+    simcls = SIMS[doc["sim"]](pq)
+    sim = simcls(d=doc["d"], config=build_config(pq, doc.get("config")))
+    return sim, build_program_adaptive(pq, doc["ins"])
+
+
+def _cond(rng, n_out, float_outcomes=False):
+    """A condition over an outcome tuple of length n_out (string or named callable)."""
+    if n_out == 0:
+        return {}
+    k = rng.random()
+    i = int(rng.integers(-n_out, n_out))
+    if float_outcomes:
+        return {"when": str(rng.choice(["x[%d] > 0.0", "x[%d] <= 0.1", "x[%d] * x[%d] >= 0"])) .replace("%d", str(i))}
+    if k < 0.3:
+        return {"when": "x[%d] == %d" % (i, int(rng.integers(0, 3)))}
+    if k < 0.45:
+        return {"when": "x[%d] > 0" % i}
+    if k < 0.6:
+        return {"when": "x[%d] %% 2 == 0 and x[%d] >= 0" % (i, int(rng.integers(-n_out, n_out)))}
+    if k < 0.7:
+        return {"when": "not x[%d] or x[%d] > 1" % (i, i)}
+    if k < 0.8:
+        return {"when": "0 < x[%d] <= 2" % i}
+    return {"when_call": str(rng.choice(["last_pos", "first_zero", "sum_even", "always", "never"]))}
+
+
+def _param_expr(rng, n_out, float_outcomes=False):
+    """An outcome-dependent parameter (string expression or named callable) of float value."""
+    i = int(rng.integers(-n_out, n_out))
+    k = rng.random()
+    if float_outcomes:
+        return str(rng.choice(["x[%d] * 0.5", "0.3 - x[%d]", "x[%d] / 4"])) .replace("%d", str(i))
+    if k < 0.3:
+        return "x[%d] * 0.5" % i
+    if k < 0.5:
+        return "0.3 + x[%d] / 4" % i
+    if k < 0.65:
+        return "(x[%d] == 1) * 0.7 - 0.1" % i
+    if k < 0.8:
+        return "0.25 * (x[%d] - x[%d])" % (i, int(rng.integers(-n_out, n_out)))
+    return {"__call__": str(rng.choice(["half_first", "neg_last"]))}
+
+
+def adaptive_program(rng, sim="purefock", d=None, max_meas=2, allow_active=True, shots=None,
+                     tight_cutoff=False, n_photons=None, hbar=2.0, postselect=True):
+    """Adaptive program document: gates / partial measurements / conditioned and outcome-
+    dependent instructions on the remaining modes. Returns the document."""
+    d = d or int(rng.integers(2, 5))
+    ins = []
+    cfg = {"hbar": hbar}
+    float_out = sim == "gaussian"
+    if sim in ("purefock", "passive", "ffock"):
+        n = n_photons if n_photons is not None else int(rng.integers(1, 4 if sim != "ffock" else d))
+        if sim == "ffock":
+            occ = [0] * d
+            for m in rng.permutation(d)[: min(n, d)]:
+                occ[int(m)] = 1
+            n = sum(occ)
+            cfg["cutoff"] = d + 1
+        else:
+            occ = number_state(rng, d, n)
+            occ_total = sum(occ)
+            n = occ_total
+            cfg["cutoff"] = n + (1 if tight_cutoff else 3)
+        ins.append({"t": "NumberState", "m": None, "p": {"occupation_numbers": occ}})
+        if sim == "purefock" and rng.random() < 0.35 and n > 0:
+            sp, occs, amps = superposition(rng, d, n, terms=3, same_n=True)
+            ins[0] = sp
+    elif sim == "gaussian":
+        ins.append({"t": "Vacuum", "m": None, "p": {}})
+    active = list(range(d))
+    n_out = 0
+    n_meas = int(rng.integers(1, max_meas + 1))
+    passive_pool = ["Beamsplitter", "Phaseshifter", "Interferometer", "MachZehnder", "Fourier", "Beamsplitter5050"]
+    if sim == "ffock":
+        passive_pool = ["Beamsplitter", "Phaseshifter", "Interferometer"]
+    for stage in range(n_meas + 1):
+        ngates = int(rng.integers(1, 4))
+        for _ in range(ngates):
+            if len(active) == 0:
+                break
+            pool = list(passive_pool)
+            if sim in ("purefock",) and allow_active:
+                pool += ["Kerr", "CrossKerr", "Squeezing", "Displacement"]
+            if sim == "passive":
+                pool += ["Kerr", "CrossKerr"]
+            if sim == "gaussian":
+                pool += ["Squeezing", "Squeezing2", "Displacement", "QuadraticPhase", "GaussianTransform"]
+            name = str(rng.choice(pool))
+            k = ARITY.get(name)
+            sub_d = len(active)
+            g = gate(rng, name, sub_d, active_scale=0.2, disp_scale=0.3)
+            if g is None:
+                continue
+            if sim == "ffock" and name in ("Beamsplitter", "Interferometer"):
+                # fermionic gates act on consecutive modes
+                kk = len(g["m"])
+                start = int(rng.integers(0, sub_d - kk + 1))
+                g["m"] = list(range(start, start + kk))
+            g["m"] = [active[i] for i in g["m"]]
+            if name == "Interferometer" and rng.random() < 0.25 and len(g["m"]) == len(active) and sim != "ffock":
+                # all-mode instruction given through Q(): the executor fills in the active modes
+                u = M.dec(g["p"]["matrix"])
+                perm = np.argsort(g["m"])
+                g["p"]["matrix"] = M.enc(u[np.ix_(perm, perm)])
+                g["m"] = None
+            if n_out > 0:
+                r = rng.random()
+                if r < 0.45:
+                    g.update(_cond(rng, n_out, float_out))
+                if r > 0.3 and name in ("Phaseshifter", "Kerr", "CrossKerr", "Squeezing", "Displacement", "QuadraticPhase"):
+                    key = {"Phaseshifter": "phi", "Kerr": "xi", "CrossKerr": "xi", "Squeezing": "phi",
+                           "Displacement": "phi", "QuadraticPhase": "s"}[name]
+                    g["p"][key] = _param_expr(rng, n_out, float_out)
+            ins.append(g)
+        if stage == n_meas or len(active) == 0:
+            break
+        # partial measurement on a random ordered subset of the active modes
+        last = stage == n_meas - 1
+        kmax = len(active) if last else len(active) - 1
+        if kmax < 1:
+            break
+        k = int(rng.integers(1, kmax + 1))
+        mm = [active[i] for i in ordered_subset(rng, len(active), k)]
+        if sim == "gaussian":
+            t = str(rng.choice(["HomodyneMeasurement", "HeterodyneMeasurement"]))
+            p = {"phi": angle(rng)} if t == "HomodyneMeasurement" else {}
+            ins.append({"t": t, "m": mm, "p": p})
+            n_out += (2 if True else 1) * len(mm)
+        elif postselect and sim in ("purefock", "passive") and rng.random() < 0.2:
+            ins.append({"t": "PostSelectPhotons", "m": mm, "p": {"photon_counts": [int(rng.integers(0, 2)) for _ in mm]}})
+        else:
+            ins.append({"t": "ParticleNumberMeasurement", "m": mm, "p": {}})
+            n_out += len(mm)
+        active = [a for a in active if a not in mm]
+    return {"sim": sim, "d": d, "config": cfg, "ins": ins, "shots": shots}
